@@ -34,10 +34,15 @@ Inductive case :=
     on an in-memory ShardTree with the given budget and chunk size) *)
 | CPut (real : bool) (budget chunk : Z) (pre : w3) (pol : option policy) (f : Z) (bs : b3)
        (res : outcome unit perr) (post : w3) (truth : truth3) (roots_ok wit_ok : bool)
-       (hazard : bool)
+       (hazard clean_ok : bool)
+(** [put_*_subtree_roots] with the chain's own roots: the ledger must not change *)
+| CRoots (pre : w3) (res : outcome unit perr) (post : w3) (roots_ok wit_ok : bool) (hazard clean_ok : bool)
+(** [WalletWrite::truncate_to_chain_state] with the chain state (tree sizes) of height [target] *)
+| CTcs (pre : w3) (blocks : list Z) (mn : mn3) (target : Z) (sizes : Z * Z * Z)
+       (res : outcome unit perr) (post : w3) (roots_ok wit_ok : bool) (hazard clean_ok : bool)
 (** [WalletWrite::truncate_to_height req] *)
 | CTrunc (pre : w3) (blocks : list Z) (mn : mn3) (req : Z)
-       (res : outcome Z perr) (post : w3) (roots_ok wit_ok : bool) (hazard : bool).
+       (res : outcome Z perr) (post : w3) (roots_ok wit_ok : bool) (hazard clean_ok : bool).
 
 Definition run_case (c : case) : bool :=
   match c with
@@ -45,7 +50,7 @@ Definition run_case (c : case) : bool :=
   | CRange pol a b o => outcome_eqb lz_eqb unit_eqb (retained_in_range pol a b) o
   | CBatch s o i pol a b out => outcome_eqb l3_eqb unit_eqb (batch_ensure s o i pol a b) out
   | CEnsure hs ex fs out => ck_eqb (ensure_checkpoints hs ex fs) out
-  | CPut _ budget chunk pre pol f bs res post _ _ _ hazard =>
+  | CPut _ budget chunk pre pol f bs res post _ _ _ hazard _ =>
       match put3 budget chunk pol f bs pre, res with
       | Ok w', Ok _ => w3_eqb w' post
       (* known finding C06-F2: the Merkle layer (not modelled) rejects the batch *)
@@ -54,7 +59,16 @@ Definition run_case (c : case) : bool :=
       | Panic, Panic => true
       | _, _ => false
       end
-  | CTrunc pre blocks mn req res post _ _ _ =>
+  | CRoots pre res post _ _ _ _ =>
+      match res with Ok _ => w3_eqb pre post | _ => false end
+  | CTcs pre blocks mn target sizes res post _ _ _ _ =>
+      match truncate_to_chain_state PRUNING_DEPTH blocks mn target sizes pre, res with
+      | Ok w', Ok _ => w3_eqb w' post
+      | Err e, Err e' => perr_eqb e e' && w3_eqb pre post
+      | Panic, Panic => true
+      | _, _ => false
+      end
+  | CTrunc pre blocks mn req res post _ _ _ _ =>
       match truncate_to_height blocks mn req pre, res with
       | Ok (h, w'), Ok h' => (h =? h') && w3_eqb w' post
       | Err e, Err e' => perr_eqb e e' && w3_eqb pre post
@@ -137,7 +151,7 @@ Definition prop_case (c : case) : bool :=
                              | Some p => opz_eqb p (match lookup_le h ex with Some (_, q) => Some q | None => frontier_pos fs end)
                              | None => false end) hs
       && forallb (fun e => zs_mem (fst e) hs) out
-  | CPut _ budget chunk pre pol f bs res post truth roots_ok wit_ok _ =>
+  | CPut _ budget chunk pre pol f bs res post truth roots_ok wit_ok _ _ =>
       roots_ok && wit_ok && w3_all ps_wf post &&
       match res with
       | Ok _ =>
@@ -149,7 +163,28 @@ Definition prop_case (c : case) : bool :=
       | Err _ => false
       | Panic => false
       end
-  | CTrunc pre blocks mn req res post roots_ok wit_ok _ =>
+  | CRoots pre res post roots_ok wit_ok _ _ =>
+      roots_ok && wit_ok && w3_eqb pre post && match res with Ok _ => true | _ => false end
+  | CTcs pre blocks mn target sizes res post roots_ok wit_ok _ _ =>
+      roots_ok && wit_ok && w3_all ps_wf post &&
+      match res with
+      | Ok _ =>
+          (* when scanned blocks lie above the target: afterwards no pool holds a checkpoint above
+             it, and every pool is checkpointed at it with the position of the given chain state *)
+          match zmax_list blocks with
+          | Some last =>
+              if target <? last then
+                let '(a, b, c) := post in let '(za, zb, zc) := sizes in
+                let one s z := forallb (fun e => fst e <=? target) (ck s)
+                               && existsb (fun e => (fst e =? target) && opz_eqb (snd e) (frontier_pos z)) (ck s) in
+                one a za && one b zb && one c zc
+              else w3_eqb pre post
+          | None => w3_eqb pre post
+          end
+      | Err _ => w3_eqb pre post
+      | Panic => false
+      end
+  | CTrunc pre blocks mn req res post roots_ok wit_ok _ _ =>
       roots_ok && wit_ok && w3_all ps_wf post &&
       match res with
       | Ok th =>
@@ -177,20 +212,32 @@ Definition prop_case (c : case) : bool :=
     clauses all hold. *)
 Definition known_class (c : case) : N :=
   match c with
-  | CPut _ budget chunk pre pol f bs (Ok _) post truth roots_ok wit_ok hazard =>
+  | CPut _ budget chunk pre pol f bs (Ok _) post truth roots_ok wit_ok hazard clean_ok =>
       let ledger_ok := w3_all ps_wf post && w3_true truth post && aligned3 pol f bs post
                        && ((blen bs =? 0) || w3_all (frontier_retained pol f) post) in
       if roots_ok && wit_ok && ledger_ok
          && negb (w3_all (grid_ok pol (f + 1) (f + blen bs)) post)
          && grid3_above pol f bs post
       then 1%N
-      else if hazard && negb (roots_ok && wit_ok) && ledger_ok
+      else if hazard && clean_ok && negb (roots_ok && wit_ok) && ledger_ok
               && grid3_above pol f bs post
       then 2%N else 0%N
-  | CPut _ _ _ pre _ _ _ (Err EOtherErr) post _ _ _ hazard =>
-      if hazard && w3_eqb pre post then 2%N else 0%N
-  | CTrunc pre blocks mn req res post roots_ok wit_ok hazard =>
-      if hazard && negb (roots_ok && wit_ok) && w3_all ps_wf post
+  | CPut _ _ _ pre _ _ _ (Err EOtherErr) post _ _ _ hazard clean_ok =>
+      if hazard && clean_ok && w3_eqb pre post then 2%N else 0%N
+  | CRoots pre (Ok _) post roots_ok wit_ok hazard clean_ok =>
+      if hazard && clean_ok && negb (roots_ok && wit_ok) && w3_eqb pre post then 2%N else 0%N
+  | CTcs pre blocks mn target sizes res post roots_ok wit_ok hazard clean_ok =>
+      if hazard && clean_ok && negb (roots_ok && wit_ok) && w3_all ps_wf post
+         && match res with
+            | Ok _ => match zmax_list blocks with
+                      | Some last => if target <? last then w3_all (fun s => forallb (fun e => fst e <=? target) (ck s)) post
+                                     else w3_eqb pre post
+                      | None => w3_eqb pre post end
+            | Err _ => w3_eqb pre post
+            | Panic => false end
+      then 2%N else 0%N
+  | CTrunc pre blocks mn req res post roots_ok wit_ok hazard clean_ok =>
+      if hazard && clean_ok && negb (roots_ok && wit_ok) && w3_all ps_wf post
          && match res with
             | Ok th => (th <=? req) && zs_mem th blocks
             | Err _ => w3_eqb pre post
@@ -213,7 +260,7 @@ Definition tag_case (c : case) : N :=
    | CRange pol a b o => 20 + failed o + 4 * b2n (Z.ltb b a) + 8 * b2n (Z.ltb (u32_max - 10)%Z b)
    | CBatch _ _ _ pol _ _ o => 40 + failed o + 4 * b2n (match pol with Some _ => true | None => false end)
    | CEnsure _ ex fs _ => 50 + b2n (Z.eqb fs 0) + 2 * b2n (match ex with [] => true | _ => false end)
-   | CPut real budget chunk pre pol f bs res post _ _ _ _ =>
+   | CPut real budget chunk pre pol f bs res post _ _ _ _ _ =>
        let '(b1, b2, b3) := bs in
        let pruned := w3_any (fun s => Z.ltb budget (cklen s)) pre in
        let ooo := w3_any (fun s => existsb (fun e => Z.ltb f (fst e)) (ck s)) pre in
@@ -222,7 +269,14 @@ Definition tag_case (c : case) : N :=
        let ret := w3_any (fun s => match rt s with [] => false | _ => true end) post in
        100 + failed res + 4 * b2n pruned + 8 * b2n ooo + 16 * b2n emptyf + 32 * b2n multi
        + 64 * b2n ret + 128 * b2n real
-   | CTrunc pre blocks mn req res post _ _ _ =>
+   | CRoots _ res _ _ _ _ _ => 600 + failed res
+   | CTcs pre blocks mn target _ res _ _ _ _ _ =>
+       700 + failed res
+       + 4 * b2n (match zmax_list blocks with Some l => Z.ltb target l | None => false end)
+       + 8 * match select_height blocks mn target pre with
+             | Some h => b2n (Z.eqb h target)
+             | None => match min_shared pre with Some _ => 2 | None => 3 end end
+   | CTrunc pre blocks mn req res post _ _ _ _ =>
        let '(a, b, c) := pre in let '(ns, no, ni) := mn in
        match res with
        | Ok th => 400 + plan_tag (plan_trunc (ck a) ns th th) + 5 * plan_tag (plan_trunc (ck b) no th th)
